@@ -235,7 +235,7 @@ def step (d : Drv) (line : String) : Drv × Option String :=
       if res.any (· == "ok=i1") then (d, none)
       else
         let d := { d with mism := d.mism + 1, badCases := if d.caseBad then d.badCases else d.badCases + 1, caseBad := true }
-        (d, some s!"MISMATCH case={d.caseId} comp={d.comp} sub={d.sub}:{op.getD 1 ""} class=rust-vs-rust line={d.lineNo} op=\"{(unwords op).take 200}\" what=\"{unwords res}\"")
+        (d, some s!"MISMATCH case={d.caseId} comp={d.comp} sub={d.sub}:{op.getD 1 ""}:{op.getD 2 ""} class=rust-vs-rust line={d.lineNo} op=\"{(unwords op).take 200}\" what=\"{unwords res}\"")
     | .candle =>
       let parts := (line.splitOn ";").map words
       let bad : Option String := match op with
